@@ -1060,6 +1060,21 @@ func (e *eng) final(out *hx.Out) {
 			conv = false
 			e.flag("C14", "last-successful-op-not-update-with-latest")
 		}
+		// C15: an object of which an earlier version had already been handed to the target (its result, if it
+		// arrived after the change, was dropped) has been reconciled again: its current version was passed to Update
+		older, again := false, false
+		for j := range e.hist {
+			if h := &e.hist[j]; h.k == o.K && !isDel(h.op) {
+				if h.ver == o.Ver {
+					again = true
+				} else {
+					older = true
+				}
+			}
+		}
+		if older && !again {
+			e.flag("C15", "changed-object-not-reconciled-again")
+		}
 	}
 	if !mapsEq(got, e.want) {
 		conv = false
@@ -1087,6 +1102,11 @@ func (e *eng) final(out *hx.Out) {
 		if !(isDel(last.op) && last.ok) {
 			conv = false
 			e.flag("C14", "removed-object-last-op-not-successful-delete")
+		}
+		// C15: an object deleted while or after one of its versions was handed to the target is reconciled again
+		// (a Delete follows the last Update)
+		if !isDel(last.op) {
+			e.flag("C15", "deleted-object-not-reconciled-again")
 		}
 	}
 	// nothing forgotten: every removed key that was ever written got a Delete
